@@ -17,7 +17,7 @@ import (
 
 //verif:include ../dnsdata/rdb/zz_verif_model.go
 //verif:include ../db/zz_verif_world.go
-//verif:harness H12_seq property=C12 native=no quick=h=2,lru=1,layout=2,names=3,amb=0;h=2,lru=2,layout=0,names=2,amb=0;h=3,lru=2,layout=1,names=1,amb=0;h=2,lru=2,layout=2,names=1,amb=1 thorough=h=2,lru=1,layout=1,names=5,amb=0;h=3,lru=2,layout=2,names=2,amb=0;h=3,lru=1,layout=0,names=2,amb=0
+//verif:harness H12_seq property=C12 native=no quick=h=2,lru=1,layout=2,names=3,amb=0,cls=1;h=2,lru=2,layout=0,names=2,amb=0,cls=0;h=3,lru=2,layout=1,names=1,amb=0,cls=0;h=2,lru=2,layout=2,names=1,amb=1,cls=0 thorough=h=2,lru=1,layout=1,names=5,amb=0,cls=1;h=3,lru=2,layout=2,names=1,amb=0,cls=0;h=3,lru=1,layout=0,names=1,amb=0,cls=1
 //verif:subst H12_seq time.Now github.com/facebookincubator/dns/dnsrocks/dnsserver.verifNow
 
 var verifClockSec int64 = 1_700_000_000
@@ -65,7 +65,7 @@ func verifSameResponse(a, b *dns.Msg, tag string) {
 
 var verifC12Names = []string{"p.z.", "d.z.", "c.z.", "y.", "q.z."} // d.z. is a delegation: its referral carries the class of the question
 
-//verif:harness H04_cache property=C04 native=no quick=h=2,lru=2,layout=2,names=1,amb=1 thorough=h=2,lru=2,layout=0,names=1,amb=1
+//verif:harness H04_cache property=C04 native=no quick=h=2,lru=2,layout=2,names=1,amb=1,cls=0 thorough=h=2,lru=2,layout=0,names=1,amb=1,cls=0
 
 // H04_cache: C04 with the response cache in the way: two clients of different locations (whose
 // ids read alike without padding) ask the same name; each must get its own location's records.
@@ -108,7 +108,10 @@ func H12_seq() {
 		if amb {
 			remote = verifClientIPs[k] // 10.0.0.1 or 11.0.0.1: the two look-alike locations
 		}
-		qclass := []uint16{dns.ClassINET, dns.ClassCHAOS}[nd.Choice(2)] // the class is part of what was asked
+		qclass := uint16(dns.ClassINET)
+		if nd.Param("cls") == 1 {
+			qclass = []uint16{dns.ClassINET, dns.ClassCHAOS}[nd.Choice(2)] // the class is part of what was asked
+		}
 		id := nd.Uint16()
 		rd := nd.Bool() // RD and CD bits differ from query to query
 		build := func() *dns.Msg {
